@@ -17,6 +17,7 @@ static void vx_buf_clear(void) { vx_clears++; vx_buflen = 0; }
 static void vx_before_value(int* ec_p) { vx_before_values++; if (nondet_bool()) { int e = nondet_int(); __CPROVER_assume(e != 0); *ec_p = e; } }
 static unsigned vx_begin_records, vx_state_pushes;
 static void vx_begin_record(int* ec_p) { (void)ec_p; vx_begin_records++; }   /* begin_record(visitor, ec): the begin_array / begin_object event of a row */
+static unsigned vx_opens_subfields; static bool vx_mode_subfields;   /* before_value(..., true) calls; stack_.back() == csv_mode::subfields */
 static int vx_spec_r;   /* what the S-CSV decoder does with this character in this state */
 static void vx_trim(void) { vx_trims++; size_t k = nondet_size(); __CPROVER_assume(k <= vx_buflen); vx_buflen = k; }
 /*@FUNC quoted_states@*/
@@ -24,6 +25,11 @@ static void vx_trim(void) { vx_trims++; size_t k = nondet_size(); __CPROVER_assu
 /*@FUNC expect_record@*/
 static unsigned vx_end_quoted, vx_err_handler_calls; static bool vx_default_arm; static size_t vx_column_index;
 /*@FUNC eof_quoted@*/
+/*@ENUM csv_mapping_kind@*/
+static uint8_t vx_mapping_kind; static size_t vx_ncols, vx_offset, vx_key_index; static unsigned vx_keys, vx_end_values, vx_skips; static bool vx_cursor_mode;
+/*@FUNC before_value_data@*/
+/*@FUNC m_columns_unquoted@*/
+/*@FUNC m_columns_quoted@*/
 #ifdef VX_CBMC
 static struct csv_parser vx_p; static int vx_ec;
 static void setup(void)
@@ -33,11 +39,14 @@ static void setup(void)
     vx_p.state_ = nondet_u8(); vx_p.more_ = true; vx_p.trim_leading_ = nondet_bool(); vx_p.trim_trailing_ = nondet_bool(); vx_p.ignore_empty_values_ = nondet_bool();
     vx_p.quote_char_ = (char)nondet_u8(); vx_p.quote_escape_char_ = (char)nondet_u8(); vx_p.field_delimiter_ = (char)nondet_u8(); vx_p.subfield_delimiter_ = (char)nondet_u8();
     vx_p.input_ptr_ = vx_in + vx_off; vx_p.column_ = nondet_size(); __CPROVER_assume(vx_p.column_ <= SIZE_MAX / 2);
-    vx_buflen = nondet_size(); __CPROVER_assume(vx_buflen <= SIZE_MAX / 2); vx_pushes = 0; vx_clears = 0; vx_before_values = 0; vx_trims = 0; vx_ec = 0;
+    vx_buflen = nondet_size(); __CPROVER_assume(vx_buflen <= SIZE_MAX / 2); vx_pushes = 0; vx_clears = 0; vx_before_values = 0; vx_trims = 0; vx_ec = 0; vx_opens_subfields = 0; vx_mode_subfields = nondet_bool();
     vx_p.line_ = nondet_size(); __CPROVER_assume(vx_p.line_ <= SIZE_MAX / 2); vx_p.ignore_empty_lines_ = nondet_bool(); vx_begin_records = 0; vx_state_pushes = 0;
 }
 void h_quoted_states(void) { setup(); quoted_states(&vx_p, &vx_ec); }
 void h_eof_quoted(void) { setup(); vx_end_quoted = 0; vx_default_arm = false; vx_column_index = nondet_size(); __CPROVER_assume(vx_column_index <= SIZE_MAX / 2); uint8_t st = nondet_u8(); __CPROVER_assume(st == csv_parse_state_quoted_string || st == csv_parse_state_escaped_value || st == csv_parse_state_before_last_quoted_field || st == csv_parse_state_between_values); vx_p.state_ = st; eof_quoted(&vx_p, &vx_ec); }
+void h_before_value_data(void) { setup(); vx_mapping_kind = nondet_u8(); vx_ncols = nondet_size(); vx_offset = nondet_size(); vx_column_index = nondet_size(); vx_cursor_mode = nondet_bool(); vx_keys = 0; __CPROVER_assume(vx_column_index >= vx_offset && vx_column_index <= SIZE_MAX / 4 && vx_ncols <= SIZE_MAX / 4 && vx_offset <= SIZE_MAX / 4); before_value_data(&vx_p, &vx_ec, nondet_bool()); }
+void h_m_columns_unquoted(void) { setup(); vx_end_values = 0; vx_skips = 0; m_columns_unquoted(&vx_p); }
+void h_m_columns_quoted(void) { setup(); vx_end_values = 0; vx_skips = 0; m_columns_quoted(&vx_p); }
 void h_expect_record(void) { setup(); vx_p.state_ = csv_parse_state_expect_record; vx_buflen = 0; expect_record(&vx_p, &vx_ec); }
 void h_unquoted_string(void) { setup(); unquoted_string(&vx_p, &vx_ec); }
 #endif
